@@ -3,8 +3,18 @@
 not_applicable.json.  Run after editing either."""
 import json, os, subprocess
 V = os.path.dirname(os.path.dirname(os.path.abspath(__file__)))
-props = json.load(open(os.path.join(V, "props.json")))
+import glob
+props = {}
+for path in sorted(glob.glob(os.path.join(V, "sim", "props", "*", "entry.json"))):
+    e = json.load(open(path))
+    props[e.get("id", os.path.basename(os.path.dirname(path)).upper())] = e
 na = json.load(open(os.path.join(V, "not_applicable.json")))
+listed = {x["property_id"] for x in na}
+for line in open(os.path.join(V, "properties.jsonl")):
+    pid = json.loads(line)["id"]
+    if pid not in props and pid not in listed:
+        na.append({"property_id": pid, "reason": "not claimed yet: the simulation engine for this property is still under construction (DESIGN.md §4); nothing is registered until its check runs clean on the unchanged tree."})
+na.sort(key=lambda x: x["property_id"])
 hooks = subprocess.run(["git", "-C", "/repo", "log", "--format=%H %s", "--grep=^verif:"], capture_output=True, text=True).stdout.split("\n")
 hook_commits = [l.split(" ", 1)[0] for l in hooks if l.strip()]
 checks = []
